@@ -135,6 +135,41 @@ CLAIMS = {
         note="Facts are branch conditions on dominating edges (no path enumeration).",
         technique="static analysis: edge-dominance facts + must-write summaries on MIR",
     ),
+    "C01": dict(
+        text="Only the plumbing any correct two-pass separable resampler needs is decided, on all "
+             "paths: X/Y kind inference shows every precompute_coefficients call gets inputs of "
+             "one axis, horizontal coefficients reach only horiz_convolution and vertical ones "
+             "only vert_convolution, pass offsets are of the other axis, temp images are "
+             "(X extent, Y extent); ResizeAlg arms route to the right resampler with the right "
+             "adaptive flag; each built-in filter's declared support covers the cut-off its kernel "
+             "function compares with; window start/end are clamped to [0, in_size] and weights "
+             "are normalised. The numerical error bound of the property is NOT decided.",
+        note="Kind sources are getter/field/parameter names (width/left/col vs height/top/row).",
+        technique="static analysis: abstract interpretation over an X/Y kind lattice on MIR "
+                  "expressions with closure substitution; enum-table and constant extraction",
+    ),
+    "C11": dict(
+        text="Decides: the column table of resample_nearest is built from horizontal quantities "
+             "only and rows are stepped with vertical ones only; the unchecked column index is "
+             "the pretabulated entry itself, clamped with width-1 of the view whose rows are "
+             "read; the stored pixel is a loaded pixel with no arithmetic; no alpha code is "
+             "reachable. Does NOT decide the index formula against floor(left+(x+0.5)*scale) nor "
+             "the agreement of the two iter_rows_with_step implementations.",
+        note="Clamp adequacy is a stated-belief rule (a bound equal to the row length is "
+             "reachable by the author's own reckoning).",
+        technique="static analysis: kind inference + iterator-source tracing + dependence "
+                  "(copy-only) on MIR",
+    ),
+    "C15": dict(
+        text="Decides for fit_src_into_dst_size: left depends on centering.0 and the width margin "
+             "only, top on centering.1 and the height margin only; both centering components are "
+             "clamped to [0,1]; on each of the three ratio branches one crop dimension is the "
+             "full source dimension; get_crop_box passes (src w, src h, dst w, dst h) in order. "
+             "Does NOT decide in-bounds under floating-point rounding or aspect accuracy.",
+        note="Local names crop_width/crop_height/centering are anchors (CHECK-ERROR/UNDECIDED if "
+             "renamed).",
+        technique="static analysis: data-dependence and branch-wise definitions on MIR",
+    ),
     "C02": dict(
         text="Structural necessary conditions for SIMD == native, decided for all paths and build "
              "configurations (x86, x86+rayon, aarch64/NEON, wasm32/SIMD128): every CpuExtensions "
